@@ -1,5 +1,6 @@
 //! pfsim — deterministic simulation harness for pickle-fuzzer (see /verif/DESIGN.md)
 
+mod cli;
 mod comp;
 mod desc;
 mod engine;
@@ -52,6 +53,13 @@ fn main() {
             run_replay(&args[2])
         }
         "selftest" => run_selftest(),
+        "build-front-ends" => match cli::build_front_ends() {
+            Ok(()) => 0,
+            Err(e) => {
+                eprintln!("HARNESS ERROR: {}", e);
+                2
+            }
+        },
         "worker" => {
             // worker <prop> <tier> <seed> <k> <n> <runs> <skip,csv>
             let tier = if args[3] == "thorough" { Tier::Thorough } else { Tier::Quick };
@@ -94,6 +102,7 @@ fn run_check(prop: &str, tier: Tier) -> i32 {
         "C12" => check_c12(tier, seed),
         "C09" => check_c09(tier, seed),
         "C07" => check_c07(tier, seed),
+        "C13" => check_c13(tier, seed),
         _ => {
             eprintln!("property {} has no check yet", prop);
             2
@@ -307,6 +316,143 @@ fn check_c07(tier: Tier, seed: u64) -> i32 {
     });
     println!("done property=C07 simulations={} task_executions={} distinct_schedules={} distinct_nontrivial={} wall={:.1}s violations={}",
         stats.evaluations, stats.counters.get("c07.task_executions").copied().unwrap_or(0), schedules.len(), stats.nontrivial.len(), wall, nviol);
+    code
+}
+
+fn check_c13(tier: Tier, seed: u64) -> i32 {
+    use std::sync::atomic::{AtomicU64, Ordering};
+    let t0 = std::time::Instant::now();
+    let known = engine::load_known();
+    if let Err(e) = cli::build_front_ends() {
+        eprintln!("HARNESS ERROR: cannot build the CLI binary / Python extension from the working tree: {}", e);
+        return 2;
+    }
+    let build_s = t0.elapsed().as_secs_f64();
+    let n_cases = runs_override(match tier { Tier::Quick => 500, Tier::Thorough => 20_000 });
+    let n_py = match tier { Tier::Quick => 300u64, Tier::Thorough => 10_000 }.min(n_cases.max(50) * 2);
+    let nt = engine::n_threads() as u64;
+    let first_bad = AtomicU64::new(u64::MAX);
+    let cap = wall_cap(tier);
+    let results: Vec<(engine::Stats, Vec<(u64, Value, props::Violation)>)> = std::thread::scope(|s| {
+        let mut hs = vec![];
+        for t in 0..nt {
+            let first_bad = &first_bad;
+            hs.push(s.spawn(move || {
+                let mut stats = engine::Stats::default();
+                let mut found = vec![];
+                let mut i = t;
+                while i < n_cases {
+                    if i > first_bad.load(Ordering::Relaxed) || t0.elapsed().as_secs_f64() > cap {
+                        break;
+                    }
+                    let case = cli::draw_case(seed, i);
+                    let vs = cli::run_case(&case, &format!("{}", i), &mut stats);
+                    stats.evaluations += 1;
+                    let j = case.to_json();
+                    let nontrivial = j["opts"].as_object().is_some_and(|o| o.iter().any(|(k, v)| k != "list_style" && !(v.is_null() || v == &json!(false) || v == &json!([])))) || j["fs_faults"].as_array().is_some_and(|a| !a.is_empty());
+                    if nontrivial {
+                        stats.nontrivial.insert(desc::digest(j.to_string().as_bytes()));
+                    }
+                    if stats.samples.len() < 2 && i % 16 == 1 {
+                        stats.samples.push(json!({"case_index": i, "case": j.clone()}));
+                    }
+                    for v in vs {
+                        found.push((i, j.clone(), v));
+                        first_bad.fetch_min(i, Ordering::Relaxed);
+                        break;
+                    }
+                    i += nt;
+                }
+                (stats, found)
+            }));
+        }
+        hs.into_iter().map(|h| h.join().unwrap()).collect()
+    });
+    let mut stats = engine::Stats::default();
+    let mut found: Vec<(u64, Value, props::Violation, &str)> = vec![];
+    for (s, f) in results {
+        stats.merge(s);
+        for (i, j, v) in f {
+            found.push((i, j, v, "cli"));
+        }
+    }
+    // rayon worker counts: the same batch directory at several worker counts, twice each
+    {
+        let opts = cli::draw_opts(&mut mix::rng_from(desc::derive_seed(seed, "C13.rayon", 0)));
+        let mut opts = opts;
+        if opts.seed.is_none() {
+            opts.seed = Some(seed);
+        }
+        for (k, n) in [1usize, 2, 3, 8, 16, 3, 16].iter().enumerate() {
+            let case = cli::Case::Batch { opts: opts.clone(), samples: 24, faults: vec![], stale: false, dir_preexists: false, dir_is_file: false, rayon_threads: *n, via_action: false, style: 0 };
+            let vs = cli::run_case(&case, &format!("rayon{}", k), &mut stats);
+            stats.evaluations += 1;
+            for v in vs {
+                found.push((n_cases + k as u64, case.to_json(), v, "cli"));
+            }
+        }
+    }
+    // Python front end
+    let seqs: Vec<cli::PySeq> = (0..n_py).map(|i| cli::draw_pyseq(seed, i)).collect();
+    let mut py_ok = true;
+    match cli::run_python(&seqs) {
+        Ok(res) => {
+            for (i, (sq, got)) in seqs.iter().zip(res.iter()).enumerate() {
+                stats.evaluations += 1;
+                stats.bump("fault.front_end.python_sequences");
+                if sq.calls.len() >= 2 {
+                    stats.nontrivial.insert(desc::digest(sq.to_json().to_string().as_bytes()));
+                }
+                if i == 3 {
+                    stats.samples.push(json!({"python_sequence": sq.to_json()}));
+                }
+                if let Some(v) = cli::judge_pyseq(sq, got) {
+                    found.push((1_000_000 + i as u64, sq.to_json(), v, "pyseq"));
+                }
+            }
+        }
+        Err(e) => {
+            eprintln!("HARNESS ERROR: python front end could not be exercised: {}", e);
+            py_ok = false;
+        }
+    }
+    found.sort_by_key(|f| f.0);
+    let mut unknown = vec![];
+    for f in &found {
+        if engine::known_match(&known, &f.2).is_some() {
+            stats.bump(&format!("known.{}", f.2.class));
+        } else {
+            unknown.push(f);
+        }
+    }
+    for k in known.iter().filter(|k| k.status == "known" && k.property == "C13") {
+        let seen = stats.counters.get(&format!("known.{}", k.class)).copied().unwrap_or(0);
+        println!("KNOWN-FINDING: property=C13 class={} {} (seen {} times in this run)", k.class, k.what, seen);
+    }
+    let mut code = 0;
+    if let Some((i, body, v, kind)) = unknown.first() {
+        let path = engine::write_replay("C13", kind, body.clone(), v, false, json!({"case_index": i}));
+        println!("violation class={} case={} detail={}", v.class, i, v.detail);
+        println!("VIOLATION property=C13 replay={}", path);
+        code = 1;
+    }
+    let wall = t0.elapsed().as_secs_f64();
+    engine::write_evidence(engine::EvidenceIn {
+        prop: "C13", tier, seed, level: "exploration",
+        rule: "one evaluation = one execution of a real front end compared with the hooked library: the hook-free pickle-fuzzer binary in single-file or batch mode (options sampled by the simulator; batch dirs with path-keyed write faults ENOSPC/EISDIR/ENOENT/ENOTDIR, stale files, RAYON_NUM_THREADS in {1,2,3,8,16}), scripts/action-run.sh with INPUT_* variables, or a Python call sequence on the freshly built _native extension; non-trivial = at least one non-default option or planted fault (CLI) / at least two calls (Python); distinct case digests",
+        stats: &stats, wall_s: wall, violations: unknown.len(), known: 0,
+        extra: json!({"cli_cases": n_cases, "python_sequences": n_py, "front_end_build_s": build_s,
+            "real_components": ["pickle-fuzzer binary built hook-free from the working tree", "scripts/action-run.sh", "pickle_fuzzer._native built with --features python-bindings, loaded by python3", "python/pickle_fuzzer/fuzzer.py"],
+            "stubbed": ["atheris (instrument_func/Setup/Fuzz no-ops)"],
+            "not_controlled": ["rayon schedule (faults are keyed by path; worker counts are sampled)"],
+            "excluded": ["--unsafe-mutations / --mutation-rate without --mutators (no documented corresponding configuration)", "runs without --seed are only checked for exit status, file set and header"]}),
+        assumptions: vec!["the hooked library is the reference; that the hooks do not perturb it is what the byte comparison with the hook-free binary shows".into()],
+        exhaustive: false,
+    });
+    println!("done property=C13 evaluations={} distinct_nontrivial={} wall={:.1}s (build {:.1}s) violations={}", stats.evaluations, stats.nontrivial.len(), wall, build_s, unknown.len());
+    if !py_ok {
+        return 2;
+    }
     code
 }
 
@@ -613,6 +759,55 @@ fn run_replay(path: &str) -> i32 {
             } else {
                 println!("not reproduced: property={} class={} (the tree no longer violates it on this input)", prop, class);
                 0
+            }
+        }
+        "cli" => {
+            if let Err(e) = cli::build_front_ends() {
+                eprintln!("HARNESS ERROR: {}", e);
+                return 2;
+            }
+            let Some(case) = cli::Case::from_json(&doc["scenario"]) else {
+                eprintln!("bad case");
+                return 2;
+            };
+            let mut st = engine::Stats::default();
+            let vs = cli::run_case(&case, "replay", &mut st);
+            for v in &vs {
+                println!("replayed: class={} detail={}", v.class, v.detail);
+            }
+            if vs.iter().any(|v| v.class == class) {
+                println!("VIOLATION property={} replay={}", prop, path);
+                1
+            } else {
+                println!("not reproduced: property={} class={}", prop, class);
+                0
+            }
+        }
+        "pyseq" => {
+            if let Err(e) = cli::build_front_ends() {
+                eprintln!("HARNESS ERROR: {}", e);
+                return 2;
+            }
+            let Some(sq) = cli::PySeq::from_json(&doc["scenario"]) else {
+                eprintln!("bad sequence");
+                return 2;
+            };
+            match cli::run_python(&[sq.clone()]) {
+                Ok(res) => match cli::judge_pyseq(&sq, &res[0]) {
+                    Some(v) if v.class == class => {
+                        println!("replayed: class={} detail={}", v.class, v.detail);
+                        println!("VIOLATION property={} replay={}", prop, path);
+                        1
+                    }
+                    _ => {
+                        println!("not reproduced: property={} class={}", prop, class);
+                        0
+                    }
+                },
+                Err(e) => {
+                    eprintln!("HARNESS ERROR: {}", e);
+                    2
+                }
             }
         }
         "plan" => {
